@@ -366,7 +366,9 @@ func runC20(c *core.Ctx) error {
 			mcJob{"tokens<=2_full", mc2Opts(mcParams{Mode: "tok", MaxToks: 2, TokSel: "full"}, []int{1})},
 			mcJob{"tokens<=3_core", mc2Opts(mcParams{Mode: "tok", MaxToks: 3, TokSel: "core", Prune: true}, []int{1})})
 	}
-	jobs = append(jobs, mcJob{"derived+mutants", mc2Opts(mcParams{Mode: "derive", MaxW: c.Pick(3, 4), MaxCombs: 1, MutW: c.Pick(2, 3)}, layouts2For(c))})
+	jobs = append(jobs, mcJob{"derived+mutants", mc2Opts(mcParams{Mode: "derive", MaxW: c.Pick(3, 4), MaxCombs: 1, MutW: c.Pick(2, 3)}, layouts2For(c))},
+		// a number in every position that takes one x all layouts x ALL single-token mutations (boundary numerals included)
+		mcJob{"number_focus+mutants", mc2Opts(mcParams{Mode: "derive", MaxW: 0, MaxCombs: 1, MutW: 1, Focus: true}, []int{1, 2, 3, 4, 5, 6})})
 	o := mc2Opts(mcParams{Mode: "tok", MaxToks: 40, TokSel: "full"}, []int{1})
 	o.Simulate = fmt.Sprintf("num=%d", c.Pick(6, 60))
 	o.Depth = 41
